@@ -75,8 +75,17 @@ static void count_shapes(const table_t* t) {
         if (col->type == CARQUET_PHYSICAL_BYTE_ARRAY && k->nvals > 0) v_count("shape_byte_array_chunks"); }
 }
 
+/* C05 determinism runs: CQV_NOISE=<n> makes the process history and the stale stack contents differ between two runs that write
+ * the same tables. The stack below the current frame is filled with a pattern derived from n (an uninitialised local of the
+ * writer then sees different garbage), and for odd n an unrelated small table is written first (different history for any static
+ * or cached state). The noise uses its own PRNG so the tables and write histories of the real cases are unchanged. */
+static __attribute__((noinline)) void scribble_stack(int pattern) { volatile uint8_t buf[768 * 1024]; for (size_t i = 0; i < sizeof buf; i++) buf[i] = (uint8_t)(pattern + (int)(i * 131u)); }
+static void history_noise(const char* dir, int64_t ci) { const char* nz = getenv("CQV_NOISE"); if (!nz) return; int n = atoi(nz);
+    if (n & 1) { vrng_t r2; vrng_seed(&r2, (uint64_t)ci * 7919u + (uint64_t)n); tgen_t gp = {4, 60, 0, -1, -1, -1, 0, 0}; table_t* t2 = tbl_generate(&r2, &gp); char p2[512]; snprintf(p2, sizeof p2, "%s/noise.parquet", dir); twrite_result_t wr2; (void)tbl_write_path(&r2, t2, p2, &wr2); unlink(p2); tbl_free(t2); v_count("history_noise_writes"); }
+    scribble_stack(n * 37 + 1); v_count("stack_scribbles"); }
+
 static void run_case(table_t* t, const char* dir, int64_t ci, const char* tag) {
-    char path[512]; snprintf(path, sizeof path, "%s/c.parquet", dir); unlink(path);
+    char path[512]; snprintf(path, sizeof path, "%s/c.parquet", dir); unlink(path); history_noise(dir, ci);
     twrite_result_t wr; int created = tbl_write_path(&R, t, path, &wr);
     uint64_t h = (uint64_t)ci * 0x9E3779B97F4A7C15ULL; for (int g = 0; g < t->nrg; g++) for (int c = 0; c < t->ncols; c++) { h = v_hash(t->rg[g][c].def, (size_t)t->rg[g][c].nlevels * 2, h); h = v_hash(t->rg[g][c].batch_rows, (size_t)t->rg[g][c].nbatches * 8, h); }
     int64_t total = 0; for (int g = 0; g < t->nrg; g++) total += t->rg_rows[g];
